@@ -116,6 +116,10 @@ def glyph_diff(ha, ga, hb_, gb, vertical=False):
         return "h_advance", "%s vs %s" % (ha.h_advance(ga), hb_.h_advance(gb))
     if vertical and ha.v_advance(ga) != hb_.v_advance(gb):
         return "v_advance", "%s vs %s" % (ha.v_advance(ga), hb_.v_advance(gb))
+    if vertical == "origin":
+        oa, ob = ha.font.get_glyph_v_origin(ga), hb_.font.get_glyph_v_origin(gb)
+        if oa != ob:
+            return "v_origin", "%s vs %s" % (oa, ob)
     oa, ob = ha.outline(ga), hb_.outline(gb)
     if oa != ob:
         ok, _stage, why = geom.outlines_match(oa, ob, TOL)
